@@ -7,6 +7,7 @@ regenerated into `ConfModel.Generated.C03Facts.grace` on every run).
 -/
 import ConfModel.Lemmas.Assert
 import ConfModel.Model.AssertPath
+import ConfModel.Lemmas.AssertSeq
 namespace ConfModel.Props.C03
 open ConfModel.Assert ConfModel.Agree
 
@@ -466,5 +467,77 @@ theorem path_batch_flag_independent (f f' : Flags) (g : Int)
     simp only [deliverAll, List.map_cons]
     rw [ih.1, ih.2, path_verdict_flag_independent f f', path_preserves_reply]
     exact ⟨rfl, rfl⟩
+
+/-! ### What `assert` publishes: one `testResults` accumulator under a sequence of calls
+
+`AssertSeq.run` is the accumulator under any sequence of `assert` / `failed` / `setOutcome` /
+`failedToStart` / `failRemaining` / `recordSideband` calls with repeated names; `published` is what
+`report` works on.  The correspondence run issues such sequences on one real `testResults` and
+compares the stored outcome of every name and the names `report` lists as FAILED. -/
+
+open ConfModel.AssertSeq in
+/-- **The stored verdict of a name is that of its last comparison**: after any call sequence in
+which the last call that stores an outcome for `n` is `assert n … e a` (before it anything; after it
+anything that does not store for `n`, `failRemaining` and side-band messages included), the outcome
+of `n` is what the Assert model says about that last pair — not a setup error, and failed exactly
+with `assert`'s discrepancies. -/
+theorem seq_published_last_assert (g : Int) (pre post : List Call) (n : String) (st : StreamType)
+    (other : List Nat) (e a : Result) (hpost : ∀ c ∈ post, c.writes n = false) :
+    get (run g (pre ++ .assert n st other e a :: post)).outcomes n = some (verdictOf (assert g st other e a)) := by
+  unfold run
+  rw [List.foldl_append, List.foldl_cons]
+  apply foldl_keeps g n _ post _ hpost
+  simp only [step]
+  exact get_set_same _ _ _
+
+open ConfModel.AssertSeq in
+/-- … and that is what `report` shows: when no side-band message was recorded for `n`, `report`
+lists `n` as FAILED exactly when the last comparison found a discrepancy. -/
+theorem seq_report_last_assert (g : Int) (pre post : List Call) (n : String) (st : StreamType)
+    (other : List Nat) (e a : Result) (hpost : ∀ c ∈ post, c.writes n = false)
+    (hsb : ∀ c ∈ pre ++ post, c.isSidebandFor n = false) :
+    listedFailed (run g (pre ++ .assert n st other e a :: post)) n = !(assert g st other e a).isEmpty ∧
+    hasOutcome (run g (pre ++ .assert n st other e a :: post)) n = true := by
+  have hnone : get (run g (pre ++ .assert n st other e a :: post)).sideband n = none := by
+    unfold run
+    apply foldl_sideband_none g n _ _ _ rfl
+    intro c hc
+    rcases List.mem_append.mp hc with h | h
+    · exact hsb c (List.mem_append_left _ h)
+    · rcases List.mem_cons.mp h with h | h
+      · subst h; rfl
+      · exact hsb c (List.mem_append_right _ h)
+  have hp := seq_published_last_assert g pre post n st other e a hpost
+  unfold listedFailed hasOutcome published
+  rw [processSideband_other n _ _ hnone, hp]
+  cases assert g st other e a <;> simp [verdictOf]
+
+open ConfModel.AssertSeq in
+/-- **End to end over call sequences**: under `WellFormed`, `report` does not list `n` as FAILED
+exactly when the LAST reported result for `n` agrees with the expected one up to the documented
+leniencies — whatever was compared or recorded for `n` (or any other name) before. -/
+theorem seq_report_iff_agree (g : Int) (pre post : List Call) (n : String) (st : StreamType)
+    (other : List Nat) (e a : Result) (hpost : ∀ c ∈ post, c.writes n = false)
+    (hsb : ∀ c ∈ pre ++ post, c.isSidebandFor n = false) (hw : WellFormed e a) :
+    listedFailed (run g (pre ++ .assert n st other e a :: post)) n = false ↔ Agree g st other e a := by
+  rw [(seq_report_last_assert g pre post n st other e a hpost hsb).1, ← assert_nil_iff g st other e a hw]
+  cases assert g st other e a <;> simp
+
+open ConfModel.AssertSeq in
+/-- non-vacuity: a conforming result, then a deviating one for the same name (third payload), a
+`failRemaining` over the name and a side-band message for another name: listed as FAILED; and the
+other order: not listed -/
+example :
+    let p (b : UInt8) : Payload := ⟨[b], none⟩
+    let e : Result := ⟨[], [p 1, p 2, p 3], none, [], 0, none⟩
+    let bad : Result := ⟨[], [p 1, p 2, p 4], none, [], 0, none⟩
+    let post : List Call := [.remaining ["s/a", "s/b"], .sideband "s/b" "note", .failed "s/c"]
+    (∀ c ∈ post, c.writes "s/a" = false) ∧
+    listedFailed (run 500 ([.setup "s/a", .assert "s/a" .serverStream [] e e] ++ .assert "s/a" .serverStream [] e bad :: post)) "s/a" = true ∧
+    get (run 500 ([.setup "s/a", .assert "s/a" .serverStream [] e e] ++ .assert "s/a" .serverStream [] e bad :: post)).outcomes "s/a"
+      = some ⟨false, some (.discrepancies [.payloadData 3])⟩ ∧
+    listedFailed (run 500 ([.assert "s/a" .serverStream [] e bad] ++ .assert "s/a" .serverStream [] e e :: post)) "s/a" = false ∧
+    listedFailed (run 500 ([.assert "s/a" .serverStream [] e bad] ++ .assert "s/a" .serverStream [] e e :: post)) "s/b" = true := by
+  decide
 
 end ConfModel.Props.C03
